@@ -655,6 +655,55 @@ def r6_diagnosers(report, repo):
                  'the result is already terminal')
 
 
+def r6b_diagnoses_reach_record(report, repo):
+  rule = 'C05-R6'
+  DL = 'openhtf/core/diagnoses_lib.py'
+  f = repo.func(DL, 'DiagnosesManager.execute_phase_diagnoser')
+  g = lib.cfg(f)
+  heads = [n for n in g.nodes if n.kind == 'for']
+  report.expect_instances(rule, len(heads), 1, 'diagnosis loops')
+  h = heads[0]
+  var = dotted(h.ast.target)
+  adds = [n for n, c in lib.nodes_with_call(g, attr='add_diagnosis')
+          if dotted(c.func.value) == lib.param_names(f.node)[2] and
+          c.args and dotted(c.args[0]) == var]
+  body = h.succ('iter')
+  if any(body is a for a in adds):
+    reach = []
+  else:
+    reach = [body] + g.reach([body], avoid=lambda n: any(n is a for a in adds),
+                             avoid_edge=lambda a, l, b: l in ('exc', 'raise'))
+  ok = bool(adds) and not any(x is h or x is g.exit for x in reach)
+  report.check(ok, rule, f.qualname, 'every-diagnosis-recorded', h.ast,
+               'every diagnosis a phase diagnoser returns is added to the '
+               'phase state (and so to the phase record) unconditionally',
+               'a diagnosis can be dropped before it reaches the phase record '
+               '(e.g. skipped as a duplicate): a failure diagnosis re-issued '
+               'by a later invocation no longer makes that invocation FAIL')
+  runs = core.calls_in(f.node, attr='run')
+  report.check(len(runs) == 1 and not any(
+      isinstance(p, (ast.For, ast.While)) for p in core.parents(runs[0])), rule,
+               f.qualname, 'diagnoser-run-once', f.node,
+               'the diagnoser runs exactly once per invocation')
+  ad = repo.func(TS, 'PhaseState.add_diagnosis')
+
+  def classify(expr, steps):
+    if dotted(expr) == lib.param_names(ad.node)[1] + '.is_failure':
+      return 'failure'
+    return None
+
+  def spec(v, p):
+    if p.end != 'exit':
+      return 'raises'
+    apps = [dotted(c.func.value) for c in p.calls(attr='append')]
+    want = ['self.phase_record.failure_diagnosis_results'] if v['failure'] \
+        else ['self.phase_record.diagnosis_results']
+    return None if apps == want else \
+        'diagnosis appended to %s, expected %s' % (apps, want)
+
+  lib.decision_table(report, rule, ad, ['failure'], classify, spec)
+
+
 def r7_record_once(report, repo, rule='C05-R7'):
   report.rule(rule, 'T-MUST: running_phase_context: finalize() then '
               'add_phase_record in the finally (one record per entered '
@@ -709,6 +758,7 @@ def run(report, repo):
   r4_run_if(report, repo)
   r5_thread_proc(report, repo)
   r6_diagnosers(report, repo)
+  r6b_diagnoses_reach_record(report, repo)
   r7_record_once(report, repo)
   from sa.rules import c01  # pylint: disable=g-import-not-at-top
   c01.r7_last_record(report, repo, rule='C05-R8')
